@@ -398,6 +398,22 @@ pub fn run(ctx: &Ctx) {
         ] {
             texts.push(s.to_string());
         }
+        // names software knows (service instances, reverse zones, ...), as text, and the same with
+        // a first label that contains a space / an escaped space / a capital / a trailing hyphen
+        for n in crate::gen::dictionary_names(3) {
+            let t: String = n.0.iter().map(|l| String::from_utf8_lossy(&l.0).to_string()).collect::<Vec<_>>().join(".");
+            if !t.is_empty() {
+                for first in ["My Printer", "Living Room TV", "a b", "a\\032b", "Ab", "a-", "a_b"] {
+                    texts.push(format!("{}.{}", first, t));
+                }
+                texts.push(t);
+            }
+        }
+        for first in ["My Printer", "a b", " a", "a ", "a  b"] {
+            for svc in ["_ipp._tcp.local", "_ipp._TCP.local", "_x._udp.c", "_ipp._tcp", "_ipp._sctp.local", "ipp._tcp.local", "_http._tcp.example.com", "local"] {
+                texts.push(format!("{}.{}", first, svc));
+            }
+        }
         let n4 = texts.len() as u64;
         let tchunks: Vec<&[String]> = texts.chunks(4096).collect();
         par_shards(ctx, &tchunks, |ts, t: &mut Tally| {
@@ -413,7 +429,7 @@ pub fn run(ctx: &Ctx) {
                 }
             }
         });
-        ctx.space("texts that look like something else: every string of length <= 9 over {0, 1, 9, '.'} (dotted quads and their neighbours), 60 well-known address, number, keyword and host literals", n4, "complete");
+        ctx.space("texts that look like something else: every string of length <= 9 over {0, 1, 9, '.'} (dotted quads and their neighbours), 60 well-known address, number, keyword and host literals, every dictionary name of <= 3 labels alone and behind 7 first labels (with a space, an escape, a capital, a trailing hyphen, an underscore), instance-like first labels in front of 8 service suffixes", n4, "complete");
     }
     // space 2b: character class x position x length: every label length 0..=70 with every
     // combination of first / interior / last character class, alone and inside a longer name
